@@ -408,8 +408,12 @@ func (c *Ctx) Finish(meta Meta, start time.Time) int {
 		fmt.Fprintf(os.Stderr, "evidence marshal: %v\n", err)
 		return 2
 	}
-	os.MkdirAll(filepath.Join(VerifDir, "evidence"), 0o755)
-	if err := os.WriteFile(filepath.Join(VerifDir, "evidence", c.Prop+".json"), b, 0o644); err != nil {
+	evDir := filepath.Join(VerifDir, "evidence")
+	if d := os.Getenv("VERIF_EVIDENCE_DIR"); d != "" {
+		evDir = d // used by the selftest so that mutant runs do not overwrite the committed evidence
+	}
+	os.MkdirAll(evDir, 0o755)
+	if err := os.WriteFile(filepath.Join(evDir, c.Prop+".json"), b, 0o644); err != nil {
 		fmt.Fprintf(os.Stderr, "evidence write: %v\n", err)
 		return 2
 	}
